@@ -1,6 +1,7 @@
 import Drv.Json
 import NpsVerif.Gen.Cur
 import NpsVerif.Gen.CurW
+import NpsVerif.Gen.Ref
 /-! Evaluation of the generated kernels `Gen.Cur.*` for the translator validation
 (`tools/kernel_validate.py`: real method vs generated kernel on an integer box). -/
 namespace Drv.KD
@@ -26,7 +27,7 @@ def evalW (j : Json) : Json :=
   | _ => obj [("error", "bad kernel")]
 
 /-- C19 view-kernel cases: a column selector applied to every row `[start, len]` of a unit-step view, by the wrapping
-32-bit kernels (`L`) and by the same kernels over unbounded integers (`S`); an integer column refuses as a whole when
+32-bit kernels generated from the current source (`L`) and by the committed reference kernels over unbounded integers (`S`, the kernels the C02 theorems are about); an integer column refuses as a whole when
 one row refuses -/
 def evalView (j : Json) : Json :=
   let rows := (jIntRows (fld j "rows")).map fun r => (r.getD 0 0, r.getD 1 0)
@@ -35,12 +36,12 @@ def evalView (j : Json) : Json :=
     let a := jOptInt (fld j "a"); let b := jOptInt (fld j "b"); let k := jOptInt (fld j "k")
     if k == some 0 then obj [("L", refuse), ("S", refuse)] else
     let l := rows.map fun (s0, len) => w3 (CurW.col_slice_slice (.lift len) (.lift s0) (.lift 1) (a.map .lift) (b.map .lift) (k.map .lift))
-    let s := rows.map fun (s0, len) => t3 (Cur.col_slice_slice len s0 1 a b k)
+    let s := rows.map fun (s0, len) => t3 (Ref.col_slice_slice len s0 1 a b k)
     obj [("L", toJson l), ("S", toJson s)]
   | ji =>
     let idx := (jInt? ji).getD 0
     let l := rows.map fun (s0, len) => CurW.col_slice_int (.lift len) (.lift s0) (.lift 1) (.lift idx)
-    let s := rows.map fun (s0, len) => Cur.col_slice_int len s0 1 idx
+    let s := rows.map fun (s0, len) => Ref.col_slice_int len s0 1 idx
     let lj := if l.any Option.isNone then refuse else toJson (l.filterMap fun o => o.map fun p => [p.1.v, p.2.v, 1])
     let sj := if s.any Option.isNone then refuse else toJson (s.filterMap fun o => o.map fun p => [p.1, p.2, 1])
     obj [("L", lj), ("S", sj)]
